@@ -13,6 +13,16 @@ Local Open Scope Z_scope.
 
 Definition keys (w : world) : list Z := map fst (w_nodes w).
 
+(* what holds of every registered node: it is registered under its own id, its
+   battery level is a percentage (what the node schema accepts), and its child /
+   value dictionaries have unique keys *)
+Definition node_inv (k : Z) (n : node) : Prop :=
+  n_id n = k /\ 0 <= n_battery n <= 100
+  /\ NoDup (map fst (n_children n))
+  /\ Forall (fun kc => NoDup (map fst (c_values (snd kc)))) (n_children n).
+
+Definition nodes_inv (ns : list (Z * node)) : Prop := Forall (fun kn => node_inv (fst kn) (snd kn)) ns.
+
 Section WithOracles.
   Variable bat : str -> option Z.
   Variable vlt : str -> str -> option bool.
@@ -29,6 +39,7 @@ Section WithOracles.
                 end;
     inv_keys : Forall (fun k => 0 <= k <= 255) (keys w);
     inv_nodup_nodes : NoDup (keys w);
+    inv_nodes : nodes_inv (w_nodes w);
     inv_nodup_set : NoDup (map fst (w_set w));
     inv_nodup_int : NoDup (map fst (w_internal w));
     inv_set_keys : Forall (fun e => fst e = msg_key (snd e) /\ m_cmd (snd e) = 1) (w_set w);
@@ -94,9 +105,9 @@ Section WithOracles.
     intros H. destruct o; [apply good_ret|congruence].
   Qed.
 
-  Lemma good_write line : good (write line).
+  Lemma good_write m : good (write_msg m).
   Proof.
-    intros s H. unfold write. destruct (s_faults s) as [|b r]; [|destruct b]; cbn;
+    intros s H. unfold write_msg. destruct (s_faults s) as [|b r]; [|destruct b]; cbn;
       (split; [exact H|split; [|exact I]]); repeat split; try apply incl_refl;
       eexists [_]; reflexivity.
   Qed.
@@ -113,29 +124,31 @@ Section WithOracles.
   (* ---------- state updates ---------- *)
 
   Lemma Inv_with_nodes w ns :
-    Inv w -> Forall (fun k => 0 <= k <= 255) (map fst ns) -> NoDup (map fst ns) ->
+    Inv w -> Forall (fun k => 0 <= k <= 255) (map fst ns) -> NoDup (map fst ns) -> nodes_inv ns ->
     Inv {| w_nodes := ns; w_pv := w_pv w; w_proto := w_proto w; w_internal := w_internal w;
            w_set := w_set w; w_metric := w_metric w |}.
-  Proof. intros [] H1 H2. constructor; cbn; assumption. Qed.
+  Proof. intros [] H1 H2 H3. constructor; cbn; assumption. Qed.
 
   Lemma good_set_nodes f :
-    (forall ns, Forall (fun k => 0 <= k <= 255) (map fst ns) -> NoDup (map fst ns) ->
+    (forall ns, Forall (fun k => 0 <= k <= 255) (map fst ns) -> NoDup (map fst ns) -> nodes_inv ns ->
                 Forall (fun k => 0 <= k <= 255) (map fst (f ns)) /\ NoDup (map fst (f ns))
-                /\ incl (map fst ns) (map fst (f ns))) ->
+                /\ incl (map fst ns) (map fst (f ns)) /\ nodes_inv (f ns)) ->
     good (set_nodes f).
   Proof.
-    intros Hf s Hi. cbn. destruct (Hf (w_nodes (s_w s)) (inv_keys _ Hi) (inv_nodup_nodes _ Hi)) as [H1 [H2 H3]].
+    intros Hf s Hi. cbn.
+    destruct (Hf (w_nodes (s_w s)) (inv_keys _ Hi) (inv_nodup_nodes _ Hi) (inv_nodes _ Hi)) as [H1 [H2 [H3 H4]]].
     split; [apply Inv_with_nodes; assumption|split; [|exact I]].
     repeat split; cbn; try apply incl_refl; [exact H3|exists []; reflexivity].
   Qed.
 
-  Lemma good_put_node k n : 0 <= k <= 255 -> good (set_nodes (fun ns => dset Z.eqb ns k n)).
+  Lemma good_put_node k n : 0 <= k <= 255 -> node_inv k n -> good (set_nodes (fun ns => dset Z.eqb ns k n)).
   Proof.
-    intros Hk. apply good_set_nodes. intros ns H1 H2. split; [|split].
+    intros Hk Hn. apply good_set_nodes. intros ns H1 H2 H3. split; [|split; [|split]].
     - apply Forall_forall. intros x Hx. apply (dset_keys_sub Z.eqb) in Hx.
       destruct Hx as [->|Hx]; [exact Hk|]. rewrite Forall_forall in H1. exact (H1 x Hx).
     - apply dset_nodup; [exact Zeqb_spec|exact H2].
     - apply dset_keys_incl.
+    - apply dset_Forall; [exact Zeqb_spec| |exact H3]. intros k' Hk'. apply Z.eqb_eq in Hk'. subst k'. exact Hn.
   Qed.
 
   Lemma dset_keys_same {V} (d : list (Z * V)) k v v0 :
@@ -145,13 +158,19 @@ Section WithOracles.
     destruct (Z.eqb k k') eqn:E; cbn; [reflexivity|]. intros H. rewrite (IH H). reflexivity.
   Qed.
 
-  Lemma good_update_node id f : good (update_node id f).
+  Lemma good_update_node id f :
+    (forall n, node_inv id n -> node_inv id (f n)) -> good (update_node id f).
   Proof.
-    apply good_set_nodes. intros ns H1 H2.
+    intros Hf. apply good_set_nodes. intros ns H1 H2 H3.
     destruct (dget Z.eqb ns id) as [n|] eqn:E.
-    - rewrite (dset_keys_same ns id (f n) n E). repeat split; try assumption. apply incl_refl.
-    - repeat split; try assumption. apply incl_refl.
+    - rewrite (dset_keys_same ns id (f n) n E). split; [exact H1|split; [exact H2|split; [apply incl_refl|]]].
+      apply dset_Forall; [exact Zeqb_spec| |exact H3]. intros k' Hk'. apply Z.eqb_eq in Hk'. subst k'. apply Hf.
+      apply (dget_In Z.eqb Zeqb_spec) in E. unfold nodes_inv in H3. rewrite Forall_forall in H3. exact (H3 _ E).
+    - split; [exact H1|split; [exact H2|split; [apply incl_refl|exact H3]]].
   Qed.
+
+  (* the attribute updates of the handlers keep the node invariant *)
+  Ltac ni := intros ? [? [[? ?] [? ?]]]; repeat split; cbn; assumption.
 
   Lemma good_set_internal_put m : good (set_internal (fun b => dset key_eqb b (msg_key m) m)).
   Proof.
@@ -210,7 +229,7 @@ Section WithOracles.
   (* ---------- Gateway.send, resolved against the generated tables ---------- *)
 
   Definition send_set_direct (m : msg) (buffered : bool) : M unit :=
-    write (encode m) ;;;
+    write_msg m ;;;
     (if buffered then set_setbuf (fun b => dpop key_eqb b (msg_key m)) else ret tt).
 
   Definition send_resolved (m : msg) (buffered : bool) : M unit :=
@@ -225,7 +244,7 @@ Section WithOracles.
         end
       else if m_cmd m =? 3 then
         (if buffered then set_internal (fun b => dset key_eqb b (msg_key m) m) s
-         else write (encode m) s)
+         else write_msg m s)
       else if (m_cmd m =? 0) || (m_cmd m =? 2) || (m_cmd m =? 4)
       then (inr (EUnsupported m (pt_version (proto_of w))), s)
       else (inr (EEscape "ValueError"), s).
@@ -344,7 +363,7 @@ Section WithOracles.
     repeat first
       [ apply good_ret
       | apply good_write
-      | apply good_update_node
+      | (apply good_update_node; ni)
       | apply good_require_node
       | apply good_set_protocol_version
       | apply good_set_internal_pop
@@ -387,13 +406,16 @@ Section WithOracles.
       rewrite max_node_id_is. destruct (Z.ltb_spec 254 (next_id (keys (s_w s)))) as [Hlt|Hle].
       + apply good_raise; [discriminate|exact Hi].
       + rewrite C1, C2. cbn [need]. revert Hi. apply good_bind_ret. apply good_bind_ret.
-        apply good_bind; [apply good_put_node; lia|intros _].
+        apply good_bind; [apply good_put_node; [lia|repeat split; cbn; try lia; constructor]|intros _].
         apply good_bind; [apply good_send; [left; reflexivity|cbn; lia]|intros _]. apply good_ret.
     - apply good_get_w. intros s. apply good_bind; [apply good_send; [left; reflexivity|cbn; lia]|intros _; apply good_ret].
     - apply good_bind; [apply good_send; [left; reflexivity|cbn; lia]|intros _; apply good_ret].
     - apply good_bind; [apply good_require_node|intros _].
       destruct (bat (m_payload m)) as [lvl|]; [|apply good_raise; discriminate].
-      destruct ((0 <=? lvl) && (lvl <=? 100)); gd.
+      destruct ((0 <=? lvl) && (lvl <=? 100)) eqn:El; [|apply good_raise; discriminate].
+      apply andb_true_iff in El. destruct El as [E1 E2]. apply Z.leb_le in E1, E2.
+      apply good_bind; [apply good_update_node|intros _; apply good_ret].
+      intros n [H1 [H2 [H3 H4]]]. repeat split; cbn; try assumption; lia.
     - gd.
     - gd.
     - rewrite D2. cbn [need]. apply good_bind_ret.
@@ -401,11 +423,11 @@ Section WithOracles.
     - gd.
     - apply good_bind; [apply good_require_node|intros _].
       destruct (py_int (m_payload m)); [|apply good_raise; discriminate].
-      apply good_bind; [apply good_update_node|intros _]. apply good_handle_sleep_buffer.
+      apply good_bind; [apply good_update_node; ni|intros _]. apply good_handle_sleep_buffer.
     - apply good_bind; [apply good_require_node|intros _].
       destruct (py_int (m_payload m)); gd.
     - apply good_bind; [apply good_require_node|intros _].
-      apply good_bind; [apply good_update_node|intros _]. apply good_handle_sleep_buffer.
+      apply good_bind; [apply good_update_node; ni|intros _]. apply good_handle_sleep_buffer.
   Qed.
 
   (* ---------- decorators ---------- *)
@@ -531,6 +553,17 @@ Section WithOracles.
     apply negb_true_iff in T1, T2, T3. repeat split; assumption.
   Qed.
 
+  Lemma set_child_value_inv id cid typ v n : node_inv id n -> node_inv id (set_child_value n cid typ v).
+  Proof.
+    intros [H1 [[H2 H2'] [H3 H4]]]. unfold set_child_value.
+    destruct (dget Z.eqb (n_children n) cid) as [c|] eqn:E; [|repeat split; assumption].
+    repeat split; cbn; try assumption.
+    - apply dset_nodup; [exact Zeqb_spec|exact H3].
+    - apply dset_Forall; [exact Zeqb_spec| |exact H4]. intros k' _. cbn.
+      apply dset_nodup; [exact Zeqb_spec|].
+      apply (dget_In Z.eqb Zeqb_spec) in E. rewrite Forall_forall in H4. exact (H4 _ E).
+  Qed.
+
   Lemma good_body1 b super m :
     msg_ok m -> level1 b = true -> (b = BSuper \/ b = BPresentation20 -> good (super m)) ->
     good (run_body1 bat vlt now b super m).
@@ -542,13 +575,17 @@ Section WithOracles.
     - rewrite D1. cbn [need]. apply good_bind_ret.
       apply good_bind; [apply good_set_internal_pop|intros _]. apply Hs. right. reflexivity.
     - destruct (m_child m =? system_child_id).
-      + apply good_bind; [apply good_put_node; exact Hn|intros _].
+      + apply good_bind; [apply good_put_node; [exact Hn|repeat split; cbn; try lia; constructor]|intros _].
         destruct (m_node m =? 0); [|apply good_ret].
         apply good_dispatch2; [exact Hm|]. repeat split; reflexivity.
-      + gd.
+      + apply good_bind; [apply good_require_node|intros _].
+        apply good_bind; [apply good_update_node|intros _; apply good_ret].
+        intros n [H1 [[H2 H2'] [H3 H4]]]. repeat split; cbn; try assumption.
+        * apply dset_nodup; [exact Zeqb_spec|exact H3].
+        * apply dset_Forall; [exact Zeqb_spec| |exact H4]. intros k' _. cbn. constructor.
     - apply good_bind; [apply good_require_node|intros n].
       destruct (negb (dmem Z.eqb (n_children n) (m_child m))); [apply good_raise; discriminate|].
-      apply good_bind; [apply good_update_node|intros _].
+      apply good_bind; [apply good_update_node; apply set_child_value_inv|intros _].
       destruct (n_reboot n); [|apply good_ret].
       rewrite C7, C6. cbn [need]. repeat apply good_bind_ret.
       apply good_bind; [apply good_send; [left; reflexivity|cbn; lia]|intros _; apply good_ret].
@@ -650,7 +687,7 @@ Section WithOracles.
     assert (Hrefl : Rsend s s). { split; [apply incl_refl|exists []; reflexivity]. }
     assert (Hdirect : forall b, Inv (s_w (snd (send_set_direct m b s))) /\ Rsend s (snd (send_set_direct m b s))
               /\ noesc (fst (send_set_direct m b s)) /\ w_nodes (s_w (snd (send_set_direct m b s))) = w_nodes (s_w s)).
-    { intros b. unfold send_set_direct, bind, write.
+    { intros b. unfold send_set_direct, bind, write_msg.
       destruct (s_faults s) as [|[|] r]; cbn.
       - destruct b; cbn; (split; [|split; [split; [apply incl_refl|eexists [_]; reflexivity]|split; [exact I|reflexivity]]]); [|exact Hi].
         destruct Hi. constructor; cbn; try assumption; [apply dpop_nodup|apply dpop_Forall]; assumption.
@@ -669,9 +706,9 @@ Section WithOracles.
     { destruct buffered.
       - destruct (good_set_internal_put m s Hi) as [G1 [[G2 [G3 _]] G4]].
         split; [exact G1|split; [split; assumption|split; [exact G4|reflexivity]]].
-      - destruct (good_write (encode m) s Hi) as [G1 [[G2 [G3 _]] G4]].
+      - destruct (good_write m s Hi) as [G1 [[G2 [G3 _]] G4]].
         split; [exact G1|split; [split; assumption|split; [exact G4|]]].
-        unfold write. destruct (s_faults s) as [|[|] r]; reflexivity. }
+        unfold write_msg. destruct (s_faults s) as [|[|] r]; reflexivity. }
     assert (Hor : (m_cmd m =? 0) || (m_cmd m =? 2) || (m_cmd m =? 4) = true).
     { destruct (Z.eqb_spec (m_cmd m) 0), (Z.eqb_spec (m_cmd m) 2), (Z.eqb_spec (m_cmd m) 4); cbn; try reflexivity. lia. }
     rewrite Hor. cbn. split; [exact Hi|split; [exact Hrefl|split; [exact I|reflexivity]]].
